@@ -378,6 +378,11 @@ def run(ctx):
             for rname in (space.X1_ALL if th else ["extrapol1"] + space.X1_UNLIMITED[:5] + ["extrapolk:0.7"] + space.X1_MUSCL):
                 cfg.append((mname, flux, rname, ctx.tier))
     ctx.pmap("operator-1d", shard_op1d, cfg)
+    # the same operator space with long-lived objects: one model and one reconstruction object serve all meshes, boundaries and data of a shard
+    first = {}
+    for c in cfg:
+        first.setdefault((c[0], c[2]), c)
+    ctx.pmap("operator-1d-reused-objects", core.Pooled(shard_op1d), list(first.values()) if not th else cfg)
     cfg2 = []
     for flux in space.fluxes(space.euler.euler2d()):
         for rname in space.X2_ALL:
